@@ -11,6 +11,7 @@ import (
 	"os"
 	"path/filepath"
 	"strings"
+	"time"
 
 	"verifharness/internal/core"
 	"verifharness/internal/imggen"
@@ -119,6 +120,46 @@ func c19Check(data []byte, schedule string, seed uint64, deferred bool) (kind, m
 		return "stream", fmt.Sprintf("autometa.Load's stream does not replay the input: %d bytes that %s (input %d bytes), err %v", len(out), firstDiff(out, data), len(data), rerr), nt
 	}
 	return "", "ok", nt
+}
+
+// c19FirstUse: the first autometa.Load calls of the process come from eight goroutines at once, on
+// one small well-formed file of each format; the expected results are computed beforehand with the
+// specific loaders only, so that nothing has touched the auto-detecting loader yet.
+func c19FirstUse(r *core.Run) {
+	rg := core.NewRNG(5, "C19", "first-use")
+	prof := structuredProfile(rg, 1)
+	pb, _ := imggen.PNGSpec{W: 3, H: 2, Depth: 8, ColorType: 2, ICC: &imggen.PNGICC{Name: "w", Profile: prof, Level: 6}, IDAT: []byte{1}}.Build()
+	jb, _ := imggen.JPEGSpec{Precision: 8, W: 3, H: 2, Comps: imggen.StdComps(1, 1, 1)}.Build()
+	wb, _ := imggen.WebPSpec{Kind: "VP8X", W: 3, H: 2, ICC: prof, Payload: []byte{1, 2}}.Build()
+	files := [][]byte{wb, jb, pb}
+	names := []string{"WebP", "JPEG", "PNG"}
+	exps := make([]mdSummary, len(files))
+	for i, f := range files {
+		exps[i], _ = c19Expected(f)
+	}
+	body := func(g int) {
+		for k := range files {
+			i := (k + g) % len(files)
+			res := loadWith("autometa", bytes.NewReader(files[i]))
+			got := summarise(res)
+			r.AddEvals(1)
+			if res.Panic != nil || !got.same(exps[i]) {
+				r.Violate("input", "differs/first-use", fmt.Sprintf("one of the first eight concurrent autometa.Load calls of the process (variant %q), on a well-formed %s: %s; the specific loader gives %s", r.Variant, names[i], sumStr(got), sumStr(exps[i])), c19Case{Name: "first-use " + names[i], Schedule: "all", File: base64.StdEncoding.EncodeToString(files[i])})
+				continue
+			}
+			if res.Stream != nil {
+				out, _, _ := src.ReadAllChunks(res.Stream, 4096, int64(len(files[i]))+1<<16)
+				if !bytes.Equal(out, files[i]) {
+					r.Violate("input", "stream/first-use", fmt.Sprintf("first concurrent autometa.Load calls of the process: the stream of the %s load does not replay the input", names[i]), c19Case{Name: "first-use " + names[i], Schedule: "all", File: base64.StdEncoding.EncodeToString(files[i])})
+				}
+			}
+		}
+	}
+	if r.Variant == "" {
+		firstUsePhases(8, 1, func(g, ph int) { body(g) })
+	} else {
+		firstUseAuto(r.Variant, 8, body)
+	}
 }
 
 func c19Inputs(seed int64, thorough bool) []c19Input {
@@ -248,6 +289,10 @@ func c19Inputs(seed int64, thorough bool) []c19Input {
 func runC19(r *core.Run) {
 	r.Rule = "inputs: valid files of C05/C06's generators (profiles up to several hundred KB, metadata beyond 64 KiB), the seed files with every short prefix and structural truncation, seeded structure-aware mutations, polyglots (one format's first structures followed by another format's complete file; PNG-parser-busy prefixes; JPEG starts without SOF), real files; under all-at-once / 1-byte / random schedules, read out immediately or after another interleaved load. autometa.Load must equal the first of pngmeta/jpegmeta/webpmeta.Load that succeeds on the complete bytes (or fail when none does) and its stream must replay the input. non-trivial = distinct inputs on which an earlier candidate consumed more than 16 bytes before failing (or none succeeds after more than 16 bytes consumed)"
 	r.Assumptions = []string{"the three specific loaders are the reference; their own correctness is C05/C06's business"}
+	c19FirstUse(r)
+	if isBurst(r.Variant) {
+		return
+	}
 	in := c19Inputs(r.Seed, r.Thorough())
 	rng := core.NewRNG(r.Seed, "C19", "sched")
 	seeds := make([]uint64, len(in))
@@ -282,6 +327,26 @@ func runC19(r *core.Run) {
 		}
 	})
 	_ = outcomes
+	if r.Variant == "" {
+		// first use of the auto-detecting loader under contention, in many fresh processes
+		var vs []string
+		for rep := 0; rep < 8; rep++ {
+			for _, v := range burstVariants {
+				i := strings.LastIndex(v, "@")
+				vs = append(vs, fmt.Sprintf("%s+rep%d%s", v[:i], rep, v[i:]))
+			}
+		}
+		// arrivals spread over nanoseconds (see firstUseFine), at several spacings and core counts
+		for rep := 0; rep < 6; rep++ {
+			for _, step := range []int{3, 7, 15, 30, 60, 120, 250, 500} {
+				for _, procs := range []int{8, 16, 4} {
+					vs = append(vs, fmt.Sprintf("burst+fine%d+rep%d@%d", step, rep, procs))
+				}
+			}
+		}
+		core.ParallelFor(len(vs), 6, func(i int) { r.RunVariantChild(vs[i], 5*time.Minute, false) })
+		r.Obs("fresh_process_first_use_bursts", len(vs))
+	}
 	r.Obs("inputs", len(in))
 	r.Sample(map[string]any{"name": in[len(in)/3].name, "bytes": len(in[len(in)/3].bytes)})
 	r.Sample(map[string]any{"name": in[len(in)-30].name, "bytes": len(in[len(in)-30].bytes)})
@@ -307,5 +372,5 @@ func replayC19(stage string, raw json.RawMessage) (bool, string, error) {
 }
 
 func init() {
-	core.Register(&core.Property{ID: "C19", Level: "exploration", Run: runC19, Replay: replayC19})
+	core.Register(&core.Property{ID: "C19", Level: "exploration", Run: runC19, Replay: replayC19, Child: variantChild("C19", "exploration", runC19)})
 }
